@@ -84,9 +84,16 @@ impl binrw::BinRead for Mso {
 
             let msg: Vec<u8> = binrw::helpers::until_eof(reader, endian, ())?;
 
-            let name = codepages::to_lossy_string(strip_trailing_nul(&name));
-            let msg = codepages::to_lossy_string(strip_trailing_nul(&msg));
-            (name.len() as u8, format!("{name}{msg}"))
+            // Msg is one string: a codepage selected inside the name stays selected for the
+            // text after it. Decode it in one go; the name alone only tells us where the text
+            // starts in the decoded string.
+            let name = strip_trailing_nul(&name);
+            let whole = [name, strip_trailing_nul(&msg)].concat();
+            let textstart = codepages::to_lossy_string(name).len();
+            (
+                textstart as u8,
+                codepages::to_lossy_string(&whole).to_string(),
+            )
         } else {
             let msg: Vec<u8> = binrw::helpers::until_eof(reader, endian, ())?;
             (
